@@ -7,6 +7,34 @@ TB = ('Coq 8.16.1 kernel (coqc, full .vo builds, vm_compute; no native_compute);
       'the correspondence harness (g++ 12 -O1, ASan+UBSan+float-cast-overflow, exact-size heap buffers) and its generators; the hand-written model is tied to /repo/src by that correspondence, '
       'which is differential testing. ')
 CLAIMED = {
+ 'C05': dict(text='The setter/parser model is REGENERATED from the C++ on every run (tools/cxx2coq.py: clang AST -> field-level IR, 279 of 285 functions) and interpreted in Coq over the proved numeric primitives; generic theorems '
+                  'roundtrip_sound / guard_sound / locality (proved once, bit-level abstraction) turn one computed boolean per pair into the round-trip statement for all in-range arguments; 316 generated obligations are '
+                  're-checked by vm_compute on every run, so a changed resolution, signedness, mask, order or missing PGN guard in the source breaks an obligation.  The translator is tied to the code by bit-exact '
+                  'correspondence of every translated function (payload, return value, every parsed output incl. IEEE bit patterns).',
+             note=TB + 'Trusted: the translator (cross-checked by the correspondence).  20 pairs with variable strings / conditional fields / repeated records and the 6 untranslated functions (five Append*, SetN2kPGN126996Progmem) '
+                  'are covered by correspondence + oracle only.  Text-field content is C16.  Half-step bound in exact arithmetic (C06).  Four open known findings (PGN 127489 status 2, windlass event masks) with machine-checked '
+                  'rt_check = false Examples.',
+             design='6 C05', technique='Coq proof: generic theorems + per-pair obligations over a model regenerated from source by a translator; bit-exact correspondence'),
+ 'C15': dict(text='For the 32 listed PGNs the reference layout table (transcribed from the published definitions, DESIGN.md Appendix A -> Spec/RefLayouts.v, 165 fields) is compared with the REGENERATED setter IR by the proved generic '
+                  'theorem layout_sound: one computed layout_matches obligation per PGN gives, for all in-range arguments, that every reference field sits at its bit position with its width, byte order, signedness and resolution; '
+                  'the C++ setter bytes are additionally compared with the table run as an encoder.',
+             note=TB + 'Oracle = my transcription of the public layouts.  7 fields (126464 list, 126993 interval in ms, five 129029 fields) are outside the bit-level theorem and compared on the C++ output only.',
+             design='6 C05/C15', technique='Coq proof: generic layout theorem + per-PGN obligations over the regenerated model; reference-encoder comparison'),
+ 'C09': dict(text='Theorems about gf_lib (Model/GroupFnDefs.v), the model of the PGN 126208 handlers (decision + execution through rsend), for every payload up to 223 bytes: exactly one answer to the requester for addressed '
+                  'Request/Command/Read/Write, none for Acknowledge/replies/broadcast commands; Acknowledge codes equal an independent reference function; the requested PGN is sent iff every selection pair matches (60928, '
+                  '126464, 126996, 126998); commands to 60928/126998 take effect and are read back through the ISO request path; heartbeat request limits.  Model tied to ~1000 lines of C++ by correspondence on node histories.',
+             note=TB + 'Three open known findings (Command acknowledged for PGNs it cannot execute; refused command applied; malformed description accepted).  UCS-2 selection strings and cut pairs: correspondence only.',
+             design='6 C09', ready=False, technique='Coq proof over executable model + extracted-model/implementation correspondence'),
+ 'C07': dict(text='node_safe: for every group-function reaction satisfying an explicit contract (proved for the no-op instance and for the library model gf_lib), every cold node and EVERY operation list (arbitrary frames, DLC 0..8, '
+                  'polls, ticks, sends): the model never indexes Devices[]/N2kCANMsgBuf[] out of range (sticky r_oob flag), never delivers more than 223 bytes, keeps its slot and queue invariants; one poll consumes at most 20 '
+                  'frames; fuelled loops are fuel-independent.  The device-list half is C18_heap_safe.  Tied to the C++ by protocol-grammar fuzz under ASan/UBSan with the library arrays relocated between inaccessible pages.',
+             note=TB + 'Partial by nature: the theorem is about the abstract memory of the model; real memory safety of the C++ is evidenced by the sanitizer correspondence on the sampled histories, not proved.',
+             design='6 C07', ready=False, technique='Coq invariant proof over executable model + sanitizer-backed extracted-model/implementation correspondence'),
+ 'C08': dict(text='Theorems for all 2^24 requested PGNs (one quantifier), every requester and device: addressed requests to a device on the bus are answered with the claim / both PGN lists / product / configuration information '
+                  '(payloads equal to reference layouts written from the published definitions) or the handler\'s choice or exactly one NAK to the requester; broadcast requests never originate a NAK; nothing while the claim is '
+                  'pending; dispatch by destination; retry timing of refused information answers.  Tied to the C++ by correspondence; independent reference machine as oracle.',
+             note=TB + 'Hypotheses named in Spec/IsoSpec.v (on_bus, driver_accepts, protocol_pgns_single, info_fits); the refuted unhypothesised readings (address above 251, NAK dropped when the queue is full) are machine-checked witnesses.',
+             design='6 C08', ready=False, technique='Coq proof over executable model + extracted-model/implementation correspondence'),
  'C18': dict(text='Theorems for every message history about a Gallina model of tN2kDeviceList (object-id heap with explicit freed state): no use of a freed entry, no index outside Sources[] (the C07 half); at most one entry '
                   'per non-zero NAME; by-NAME and by-source look-ups agree with an abstract NAME->address mirror for every undisplaced NAME; PGN lists and (ASCII) configuration information are reported back, the updated flag is '
                   'raised on every change; the product-information clause is refuted for the parked-device history (known finding) and proved without it.  Model tied to the C++ by correspondence on message histories.',
